@@ -177,6 +177,7 @@ class TamperWire(Observer):
         self.held = None
         self.blackhole = set()
         self.info = {}
+        self.maybe_intact = False   # the altered packet may arrive unaltered
 
     def regions(self, dirname, data):
         ds = self.d[dirname]
@@ -264,10 +265,30 @@ class TamperWire(Observer):
             b[off] ^= 1 << t['bit']
             pipe.push(DATA, bytes(b))
         elif kind == 'bytedrop':
+            # dropping a byte that equals its successor is the same stream
+            # as dropping the successor: the first byte that really differs
+            # is at the end of the run -- possibly in the next packet, in
+            # which case this packet arrives unaltered
+            end = off
+
+            while end + 1 < len(data) and data[end + 1] == data[off]:
+                end += 1
+
+            if end == len(data) - 1:
+                self.maybe_intact = True
+
             pipe.push(DATA, data[:off] + data[off + 1:])
         elif kind == 'byteinsert':
-            pipe.push(DATA, data[:off] + bytes([t['rnd'] & 0xff]) +
-                      data[off:])
+            ins = t['rnd'] & 0xff
+            end = off
+
+            while end < len(data) and data[end] == ins:
+                end += 1
+
+            if end == len(data):
+                self.maybe_intact = True
+
+            pipe.push(DATA, data[:off] + bytes([ins]) + data[off:])
         elif kind == 'truncate':
             if off:
                 pipe.push(DATA, data[:off])
@@ -372,7 +393,23 @@ def run_plan(plan, sched_seed=None, sched_replay=None):
                     slabel = label
 
         sent = [p for p in sim.pkts.get(slabel, []) if p[0] == 'S']
-        clean = sent[:max(0, w.clean_upto - 1)]
+        ds = w.d[t['dir']]
+        idx = getattr(ds, 'packet_index', [])
+
+        if ds.packets and len(idx) == len(ds.packets) and \
+                not ds.undecodable and w.info.get('decoded'):
+            # what was on the wire, in wire order, as decoded by the
+            # independent observer: packets of writes before the first
+            # altered one.  (The sender's own log is in send_packet() order,
+            # which differs from wire order when packets were held back
+            # during a re-exchange.)
+            clean = [(None, pk[2], pk[1], pk[3], pk[4])
+                     for pk, wi in zip(ds.packets, idx)
+                     if wi is not None and wi < w.clean_upto]
+            sim.probes['expected_from_wire'] += 1
+        else:
+            clean = sent[:max(0, w.clean_upto - 1)]
+
         expect = {}
 
         for _d, ptype, _seq, payload, _n in clean:
@@ -382,6 +419,19 @@ def run_plan(plan, sched_seed=None, sched_replay=None):
                 if got:
                     chan, dt, data = got
                     expect.setdefault((chan, dt), []).append(data)
+
+        # the packet the tamper was aimed at, where the alteration may in
+        # fact begin only after it (see TamperWire.emit)
+        extra = None
+
+        if w.maybe_intact and ds.packets and len(idx) == len(ds.packets):
+            for pk, wi in zip(ds.packets, idx):
+                if wi == w.clean_upto and pk[2] in (94, 95):
+                    extra = _data_in(pk[3])
+
+            sim.probes['tamper_left_packet_intact'] += 1
+        elif w.maybe_intact:
+            extra = 'unknown'
 
         state['expect'] = expect
         state['sent_total'] = len(sent)
@@ -399,6 +449,13 @@ def run_plan(plan, sched_seed=None, sched_replay=None):
                 for dt in (0, 1):
                     want = b''.join(expect.get((rid, dt), []))
                     got = ep.joined(dt)
+
+                    if extra == 'unknown' and got[:len(want)] == want:
+                        continue
+
+                    if extra and extra[0] == rid and extra[1] == dt and \
+                            got == want + extra[2]:
+                        continue
 
                     if got != want:
                         if len(got) < len(want) and want[:len(got)] == got \
